@@ -87,6 +87,17 @@ impl SignedPeersStore {
     }
 }
 
+#[cfg(mainline_verif)]
+impl SignedPeersStore {
+    /// Verification hook: contents, most recently used first.
+    pub fn verif_dump(&self) -> Vec<(Id, Vec<([u8; 32], SignedAnnounce)>)> {
+        self.info_hashes
+            .iter()
+            .map(|(k, v)| (*k, v.iter().map(|(a, b)| (*a, b.clone())).collect()))
+            .collect()
+    }
+}
+
 #[cfg(test)]
 mod test {
     use ed25519_dalek::SigningKey;
